@@ -113,7 +113,12 @@ def spec_dir(workdir):
 
 
 def tlc_cmd(heap="3g", extra_jvm=()):
-    return ["java", "-XX:+UseParallelGC", "-XX:ParallelGCThreads=2", "-Xmx" + heap, "-Xss64m", *extra_jvm, "-cp", JAR, "tlc2.TLC"]
+    return ["java", "-XX:+UseParallelGC", "-XX:ParallelGCThreads=4", "-Xmx" + heap, "-Xss64m", *extra_jvm, "-cp", JAR, "tlc2.TLC"]
+
+
+def tlc_obs_cmd():
+    # many single-worker JVMs side by side: the serial collector scales best (measured)
+    return ["java", "-XX:+UseSerialGC", "-Xmx2g", "-Xss64m", "-cp", JAR, "tlc2.TLC"]
 
 
 def observe(trace_files, workdir, invs=None, timeout=3600):
@@ -135,7 +140,7 @@ def observe(trace_files, workdir, invs=None, timeout=3600):
         meta = os.path.join(workdir, "meta_obs_%d" % k)
         env = dict(os.environ, VERIF_TRACE=tf, VERIF_INVS=invfile)
         outf = open(os.path.join(workdir, "obs_%d.out" % k), "w")
-        p = subprocess.Popen(tlc_cmd() + ["-workers", "1", "-metadir", meta, "-config", "TraceObs.cfg", "TraceObs.tla"],
+        p = subprocess.Popen(tlc_obs_cmd() + ["-workers", "1", "-metadir", meta, "-config", "TraceObs.cfg", "TraceObs.tla"],
                              cwd=sd, env=env, stdout=outf, stderr=subprocess.STDOUT)
         return (k, tf, p, outf, meta)
 
